@@ -123,8 +123,9 @@ def ref_cost(c, L, yhat):
 def loss_patches(c):
     if c.mode != "sym":
         return []
+    from pygom.loss import base_loss
     ps, st = stats_patches(c)
-    return ps
+    return ps + [(base_loss, "np", stubs.NumpyObjProxy())]
 
 
 def last_flow(book):
